@@ -264,10 +264,13 @@ func (c *client) pause(d int) bool {
 	}
 }
 
-func (c *client) enterPhase(p string) {
+// enterPhase records the phase the client will stall in next; at is the client's clock just
+// BEFORE the action that made the proxy enter it (so that a descheduled client never makes a
+// close look early).
+func (c *client) enterPhase(p string, at int64) {
 	if c.phase != p {
 		c.phase = p
-		c.enter = c.last
+		c.enter = at
 	}
 }
 
@@ -275,13 +278,14 @@ func runTiming(r *proxyRig, org *origin, sc scenario, hello []byte) (res timingR
 	res.Sc = sc
 	res.ClosedMs = -1
 	st := r.st
+	tDial := time.Now() // the clock starts before the dial: the proxy's first timer starts after it
 	conn, err := net.DialTimeout("tcp", r.addr, 2*time.Second)
 	if err != nil {
 		res.Err = "dial: " + err.Error()
 		return
 	}
 	defer conn.Close()
-	c := &client{t0: time.Now(), raw: conn, cur: conn, hello: hello, pp: ppV1, closedAt: -1}
+	c := &client{t0: tDial, raw: conn, cur: conn, hello: hello, pp: ppV1, closedAt: -1}
 	if sc.PPv2 {
 		c.pp = ppV2
 	}
@@ -289,18 +293,18 @@ func runTiming(r *proxyRig, org *origin, sc scenario, hello []byte) (res timingR
 	// initial phase
 	switch {
 	case st.PP:
-		c.enterPhase("pphdr")
+		c.enterPhase("pphdr", 0)
 	case st.TLS:
-		c.enterPhase("ltls")
+		c.enterPhase("ltls", 0)
 	default:
-		c.enterPhase("idle")
+		c.enterPhase("idle", 0)
 		c.inIdle = true
 	}
-	afterPP := func() {
+	afterPP := func(at int64) {
 		if st.TLS {
-			c.enterPhase("ltls")
+			c.enterPhase("ltls", at)
 		} else {
-			c.enterPhase("idle")
+			c.enterPhase("idle", at)
 			c.inIdle = true
 		}
 	}
@@ -314,6 +318,7 @@ func runTiming(r *proxyRig, org *origin, sc scenario, hello []byte) (res timingR
 		if c.closedAt >= 0 {
 			break
 		}
+		tb := c.now() // before the action
 		switch a.Op {
 		case "sleep":
 			c.pause(a.D)
@@ -329,7 +334,7 @@ func runTiming(r *proxyRig, org *origin, sc scenario, hello []byte) (res timingR
 				c.ppSent = end
 				if end == len(c.pp) {
 					c.mark("done")
-					afterPP()
+					afterPP(tb)
 				} else {
 					c.mark("bytes")
 				}
@@ -345,7 +350,7 @@ func runTiming(r *proxyRig, org *origin, sc scenario, hello []byte) (res timingR
 				c.cur = tc
 				c.br = bufio.NewReader(tc)
 				c.mark("done")
-				c.enterPhase("idle")
+				c.enterPhase("idle", c.last)
 				c.inIdle = true
 			} else {
 				end := min(a.K, len(c.hello)-1)
@@ -376,18 +381,19 @@ func runTiming(r *proxyRig, org *origin, sc scenario, hello []byte) (res timingR
 				if end == len(c.head) {
 					c.mark("done")
 					c.inIdle = false
-					c.enterPhase("upstream")
+					c.enterPhase("upstream", tb)
 				} else {
 					c.mark("bytes")
 					if c.inIdle {
 						c.inIdle = false
-						c.enterPhase("head")
+						c.enterPhase("head", tb)
 					}
 				}
 			}
 		case "trickle":
 			// K single bytes of the current unit, one every D ms
 			for i := 0; i < a.K && c.closedAt < 0; i++ {
+				tb := c.now()
 				switch c.phase {
 				case "pphdr":
 					if c.ppSent < len(c.pp)-1 {
@@ -407,7 +413,7 @@ func runTiming(r *proxyRig, org *origin, sc scenario, hello []byte) (res timingR
 					if c.inMPeek {
 						c.inMPeek = false
 						c.mark("bytes")
-						c.enterPhase("mtls")
+						c.enterPhase("mtls", tb)
 						c.pause(a.D)
 						continue
 					}
@@ -422,7 +428,7 @@ func runTiming(r *proxyRig, org *origin, sc scenario, hello []byte) (res timingR
 					if c.inIdle {
 						c.inIdle = false
 						c.mark("bytes")
-						c.enterPhase("head")
+						c.enterPhase("head", tb)
 						c.pause(a.D)
 						continue
 					}
@@ -446,7 +452,7 @@ func runTiming(r *proxyRig, org *origin, sc scenario, hello []byte) (res timingR
 			res.GotReply = true
 			c.head = ""
 			c.mark("reply")
-			c.enterPhase("idle")
+			c.enterPhase("idle", c.last)
 			c.inIdle = true
 		case "connect":
 			req := "CONNECT example.test:443 HTTP/1.1\r\nHost: example.test:443\r\n\r\n"
@@ -465,7 +471,7 @@ func runTiming(r *proxyRig, org *origin, sc scenario, hello []byte) (res timingR
 			c.mark("doneconnect")
 			c.inIdle = false
 			c.inMPeek = true
-			c.enterPhase("mpeek")
+			c.enterPhase("mpeek", tb)
 		case "mtls":
 			if a.K < 0 {
 				tc := tls.Client(c.cur, &tls.Config{InsecureSkipVerify: true, ServerName: "example.test"}) //nolint:gosec
@@ -478,7 +484,7 @@ func runTiming(r *proxyRig, org *origin, sc scenario, hello []byte) (res timingR
 				c.br = bufio.NewReader(tc)
 				c.inMPeek = false
 				c.mark("done")
-				c.enterPhase("idle")
+				c.enterPhase("idle", c.last)
 				c.inIdle = true
 			} else {
 				end := min(a.K, len(c.hello)-1)
@@ -490,7 +496,7 @@ func runTiming(r *proxyRig, org *origin, sc scenario, hello []byte) (res timingR
 					c.mark("bytes")
 					if c.inMPeek {
 						c.inMPeek = false
-						c.enterPhase("mtls")
+						c.enterPhase("mtls", tb)
 					}
 				}
 			}
@@ -815,6 +821,7 @@ func main() {
 	out := flag.String("out", ".", "output directory")
 	replay := flag.String("replay", "", "replay file (one scenario)")
 	tol := flag.Int("tol", 130, "tolerance in ms for close times / probe latency")
+	only := flag.String("only", "", "comma-separated scenario names: run just these (used to re-run failing scenarios alone)")
 	flag.Parse()
 	t00 := time.Now()
 	r := rng.New(*seed)
@@ -856,10 +863,32 @@ func main() {
 		asc = genAccept(lim, *tier)
 		if *tier == "thorough" {
 			lim2 := limits{Idle: 300 + r.Intn(200), Rhdr: 200 + r.Intn(150), Read: 0, TLS: 250 + r.Intn(150), PP: 150 + r.Intn(150)}
-			tsc = append(tsc, genTiming(lim2, *tier, r)...)
+			for _, s := range genTiming(lim2, *tier, r) {
+				s.Name += "#2"
+				tsc = append(tsc, s)
+			}
 		}
 	}
 
+	if *only != "" {
+		want := map[string]bool{}
+		for _, n := range strings.Split(*only, ",") {
+			want[n] = true
+		}
+		var t2 []scenario
+		for _, s := range tsc {
+			if want[s.Name] {
+				t2 = append(t2, s)
+			}
+		}
+		var a2 []acceptScenario
+		for _, s := range asc {
+			if want[s.Name] {
+				a2 = append(a2, s)
+			}
+		}
+		tsc, asc = t2, a2
+	}
 	// timing scenarios: one proxy per (stack, limits); scenarios of one proxy run one after the
 	// other (so that a defect in the accept path cannot smear unrelated timings), proxies in parallel.
 	type key struct {
